@@ -54,7 +54,7 @@ class C08(Cfg):
                   "every allowed room was admitted for the proven key at a time t<=now at which the key was a valid member of the room according to the definition then in force. "
                   "The full statement (member NOW) is proved for a serving side that re-checks membership and is FALSE of the code: decide-checked witness for a former member on a live connection, replayed on the real code (known finding); "
                   "the second defect found (a disabled-only user admitted through has_user on a definition change) was fixed in /repo (81b6434) and is kept as a regression witness and corpus case. "
-                  "Tie: the real InboundQueryService::start loop (process_inbound + add_allowed_room) and the real process_local_event fed with the instance's real RoomModified events, on a real database with 3-4 rooms, rows, references, deletions and logs; "
+                  "Tie: the real InboundQueryService::start loop (process_inbound + add_allowed_room) and the real process_local_event fed with the instance's real RoomModified events, on a real database with 3-4 rooms, rows, references, deletions and logs, plus room-less rows (private rows, room-definition rows, the sys.Peer row) named in Nodes/Edges requests; "
                   "requester in 6 membership states x 7 positions relative to authentication / room list / definition changes x every request kind x own/foreign/mixed/unknown identifiers (exhaustive product) + random sequences; every Answer decoded with bincode and compared with the model; independent oracle on the decoded answers.")
     level_note = ("Trusted: Lean kernel (+propext, Classical.choice, Quot.sound), translator T1 (regex level), the hand-written model of the row filters and of rooms_for_peer/has_user (shared Room model), the correspondence harness. "
                   "Modelled and exercised: process_inbound, add_allowed_room, process_local_event, Node/Edge::filtered_by_room, daily nodes, deletion logs, daily logs, room definition, peers_for_room. "
@@ -139,7 +139,9 @@ class C08(Cfg):
                         tag = it.split(":")[0]
                         if tag == "?" or it.endswith(":?"):
                             res.append(("unknown-row-in-answer", "%s contains a row the harness never created: %s" % (what, it)))
-                        elif tag != r and not (tag == "-" and kv.get("kind") == "PeersForRoom"):
+                        elif tag == "-" and kv.get("kind") != "PeersForRoom":
+                            res.append(("roomless-row-in-answer", "%s contains a row that belongs to no room (private / system row): %s" % (what, it)))
+                        elif tag != r and tag != "-":
                             res.append(("foreign-row-in-answer", "%s contains an item of room %s" % (what, tag)))
         return res
 
